@@ -1,11 +1,63 @@
 use crate::framework::Property;
 
+pub mod c01;
+pub mod c11;
 pub mod c15;
+pub mod selftest;
 
 pub fn all() -> Vec<Box<dyn Property>> {
-    vec![Box::new(c15::C15)]
+    vec![Box::new(c01::C01), Box::new(c11::C11), Box::new(c15::C15)]
 }
 
 pub fn lookup(id: &str) -> Option<Box<dyn Property>> {
     all().into_iter().find(|p| p.id() == id)
+}
+
+/// C11 "lowered" phase: IRs lowered from generated programs must round-trip, and after identical
+/// application both sides must compile to the same decoded transaction.
+pub fn lowered_roundtrip(ctx: &mut crate::framework::Ctx, _idx: u64, rng: &mut crate::rng::Rng) {
+    use crate::gen::{ast, build};
+    let cfg = build::Cfg { cardano_pct: 40, ..Default::default() };
+    let g = build::generate(rng, &cfg);
+    let src = ast::print_program(&g.prog, ast::Layout::plain());
+    for (ti, txd) in g.prog.txs.iter().enumerate() {
+        let Ok(t) = crate::pipeline::front(&src, &txd.name) else {
+            ctx.count("lowered/front-rejected");
+            continue;
+        };
+        ctx.count("lowered/tx");
+        c11::check_roundtrip(ctx, &t, "generated-program");
+        // same application on both sides => same decoded transaction
+        let (bytes, v) = tx3_tir::encoding::to_bytes(&t);
+        let Ok(Ok(tx3_tir::encoding::AnyTir::V1Beta0(back))) = crate::panics::catch(|| tx3_tir::encoding::from_bytes(&bytes, v)) else { continue };
+        let w = build::world(&g, ti, rng, &cfg);
+        let pp = crate::env::PP::default();
+        let a = crate::pipeline::back_assigned(&t, &w, &pp);
+        let b = crate::pipeline::back_assigned(&back, &w, &pp);
+        ctx.eval();
+        match (a, b) {
+            (Ok(x), Ok(y)) => {
+                ctx.count("lowered/compiled-both");
+                let (vx, vy) = (crate::decode::tx::view(&x.payload), crate::decode::tx::view(&y.payload));
+                match (vx, vy) {
+                    (Ok(vx), Ok(vy)) => {
+                        if vx.tx != vy.tx {
+                            ctx.violation("roundtrip:compiled-tx-differs", serde_json::json!({"source": src, "tx": txd.name}));
+                        }
+                    }
+                    _ => ctx.count("lowered/undecodable"),
+                }
+            }
+            (Err(x), Err(y)) => {
+                if x.class() != y.class() {
+                    ctx.violation("roundtrip:outcome-differs", serde_json::json!({"source": src, "tx": txd.name, "original": x.text(), "decoded": y.text()}));
+                }
+                ctx.count("lowered/error-both");
+            }
+            (x, y) => ctx.violation(
+                "roundtrip:outcome-differs",
+                serde_json::json!({"source": src, "tx": txd.name, "original_ok": x.is_ok(), "decoded_ok": y.is_ok()}),
+            ),
+        }
+    }
 }
